@@ -133,3 +133,24 @@ Theorem voronoi_cell_nearest_everywhere : forall ulps denv sites cells, VoronoiS
   forall tau, (forall v, In v c -> dist2 v s - dist2 v t <= tau) ->
   qbis s t (wsx ws c) (wsy ws c) (wsw ws c) <= wsw ws c * wsw ws c * tau.
 Proof. intros. apply voronoi_vertex_suffices; assumption. Qed.
+
+(* ------------------------------------------------------------------ edges-only output *)
+Definition on_voronoi_edge (ulps mag : Z) (sites : list pt) (v : pt) : Prop :=
+  exists s t, In s sites /\ In t sites /\ t <> s
+    /\ (forall r, In r sites -> p52 * (dist2 v s - dist2 v r) <= ulps * mag * 2 * l1 s r)
+    /\ p52 * (dist2 v t - dist2 v s) <= ulps * mag * 2 * l1 s t.
+Theorem check_voronoi_edges_sound : forall ulps denv sites lines, check_voronoi_edges ulps denv sites lines = true ->
+  forall l v, In l lines -> In v l -> env_covers_pt denv v = true /\ on_voronoi_edge ulps (env_mag denv) sites v.
+Proof.
+  intros ulps denv sites lines H l v Hl Hv. unfold check_voronoi_edges in H. rewrite forallb_forall in H. specialize (H l Hl).
+  rewrite forallb_forall in H. specialize (H v Hv). apply andb_true_iff in H. destruct H as [He Hb]. split; [ exact He | ].
+  unfold on_bisectorb in Hb. destruct (nearest_site v sites) as [s | ]; [ | discriminate ].
+  rewrite !andb_true_iff in Hb. destruct Hb as [[Hs Hall] Hex]. apply mem_pt_In in Hs.
+  apply existsb_exists in Hex. destruct Hex as [t [Ht Hc]]. apply andb_true_iff in Hc. destruct Hc as [Hne Hd].
+  exists s, t. repeat split.
+  - exact Hs.
+  - exact Ht.
+  - intros E. subst t. apply negb_true_iff in Hne. assert (pt_eqb s s = true) by (apply pt_eqb_eq; reflexivity). congruence.
+  - intros r Hr. rewrite forallb_forall in Hall. apply Z.leb_le, Hall, Hr.
+  - apply Z.leb_le, Hd.
+Qed.
